@@ -184,6 +184,13 @@ def rule_closed(ctx):
         continue
       ex = exponent_of(v) if fname == "LfsrCount" else v + shift
       key = norm(e.node)
+      # the closed forms are integers of unbounded size: a true division makes the value a float (OverflowError beyond 2^1024, 53-bit precision before)
+      fl = [t_ for t_ in v.all_atoms() if t_.kind == "tdiv" and any(u_.kind == "pow" and as_poly(u_.args[1]).as_int() is None for u_ in as_poly(t_.args[0]).all_atoms())]
+      if fl:
+        ctx.violation(R, f.where, key, "the closed form goes through a float: `%s` is a true division of an unbounded power (OverflowError as soon as the power exceeds 2^1024, "
+                      "e.g. m >= 513; not exact beyond 53 bits unless the quotient is a power of two)" % norm(e.node)[:80])
+        n_pieces += 1
+        continue
       if ex is None:
         pending.append((key, "returned value %r is not a power of two with a linear exponent" % (v,)))
         continue
